@@ -65,4 +65,25 @@ StyledRowCalls(row, st, strokeOn) ==
                                    \o SpanCall(row[1], row[5], row[3], st.stroke)
     [] strokeOn /\ ~HasFill(st) -> SpanCall(row[1], row[2], row[4], st.stroke) \o SpanCall(row[1], row[5], row[3], st.stroke)
     [] OTHER -> <<>>
+
+\* the whole picture as a set of <<x, y, colour>> triples (closed form of the machine MC_C06e steps row by row;
+\* MC_C06e!MachineIsClosedForm).  k = "ellipse": sh = box; k = "rrect": sh = <<box, radii>>.  route = "draw" | "pixels"
+SpanSet(y, a, b, c) == { <<x, y, c>> : x \in a..(b - 1) }
+StyledMapT(k, sh, st, route) ==
+  LET sa == IF k = "ellipse" THEN EllStrokeArea(sh, st) ELSE RRStrokeArea(sh, st)
+      fa == IF k = "ellipse" THEN EllFillArea(sh, st) ELSE RRFillArea(sh, st)
+      sbox == IF k = "ellipse" THEN sa ELSE sa[1]
+      fbox == IF k = "ellipse" THEN fa ELSE fa[1]
+      strokeOn == IF route = "draw" THEN HasStroke(st) ELSE st.stroke >= 0
+      plain == route = "draw" /\ ~HasStroke(st) /\ HasFill(st)
+      rb == IF plain THEN fbox ELSE sbox
+      Row(y) == IF k = "ellipse" THEN EllStyledRowT(sa, fa, y, TRUE) ELSE RRStyledRowT(sa, fa, y, TRUE)
+      PRow(y) == IF k = "ellipse"
+                 THEN LET r == EllScanlineT(fa, y) IN IF r = <<>> THEN <<y, 0, 0>> ELSE <<y, r[1], r[2]>>
+                 ELSE RRScanlineT(fa[1], fa[2], y)
+      RowSet(y) == IF plain THEN LET r == PRow(y) IN SpanSet(y, r[2], r[3], st.fill)
+                   ELSE LET r == Row(y) IN
+                        (IF strokeOn THEN SpanSet(y, r[2], r[4], st.stroke) \cup SpanSet(y, r[5], r[3], st.stroke) ELSE {})
+                        \cup (IF HasFill(st) THEN SpanSet(y, r[4], r[5], st.fill) ELSE {})
+  IN IF ~strokeOn /\ ~HasFill(st) THEN {} ELSE UNION { RowSet(y) : y \in rb[2]..(rb[2] + rb[4] - 1) }
 =============================================================================
